@@ -382,7 +382,7 @@ macro_rules! c09_body {
 }
 
 
-// @verif props=C09,C02 tier=quick timeout=2400 mem=16 unwind=7 bound="haystack <= 1 symbolic scalars, arbitrary engine table, symbolic start, up to 4 next() calls; PikeVMExecutor" funcs="PikeVMExecutor::initial_position,next_match,pikevm::successful_match,exec::Matches::next"
+// @verif props=C09,C02 tier=thorough timeout=5400 mem=16 unwind=7 bound="haystack <= 1 symbolic scalars, arbitrary engine table, symbolic start, up to 4 next() calls; PikeVMExecutor" funcs="PikeVMExecutor::initial_position,next_match,pikevm::successful_match,exec::Matches::next"
 // @verif stubs="pikevm::MatchAttempter::try_at_pos -> arbitrary deterministic table END[offset]"
 #[kani::proof]
 #[kani::unwind(7)]
